@@ -277,25 +277,28 @@ Definition l_op (s : lstate) (o : operand) : option lstate :=
   match o with OLabel l => l_ref s l | _ => Some s end.
 
 (* text-level well-formedness of an operand at a position that is / is not a label position *)
-Definition top_ok (fs : fstate) (decl : name -> bool) (lp : bool) (o : operand) : Prop :=
+Definition regp_of (ofs : option fstate) (x : name) : bool :=
+  match ofs with Some fs => func_reg_p fs x | None => false end.
+
+Definition top_ok (ofs : option fstate) (decl : name -> bool) (lp : bool) (o : operand) : Prop :=
   match o with
-  | OReg r => lp = false /\ func_reg_p fs r = true
-  | ORef n => lp = false /\ func_reg_p fs n = false /\ decl n = true
+  | OReg r => lp = false /\ regp_of ofs r = true
+  | ORef n => lp = false /\ regp_of ofs n = false /\ decl n = true
   | OLabel _ => lp = true
-  | OMem m => wf_mtype (m_type m) /\ opt_reg_ok (func_reg_p fs) (m_base m) /\ opt_reg_ok (func_reg_p fs) (m_index m)
+  | OMem m => wf_mtype (m_type m) /\ opt_reg_ok (regp_of ofs) (m_base m) /\ opt_reg_ok (regp_of ofs) (m_index m)
               /\ (m_scale m < 256)%N
   | _ => True
   end.
 
 Lemma parse_op_insn k nops st fs s o s' rest :
   plain_kind k -> match k with KExpr | KRef => False | _ => True end ->
-  ss_func st = Some fs -> lrel st s ->
+  ss_func st = fs -> lrel st s ->
   top_ok fs (declared (as_rstate st)) (label_position k nops) o -> l_op s o = Some s' -> op_follow rest ->
   exists st', parse_op k nops st (tk_op o ++ rest) = OpPush (POp (tnorm_op o)) st' rest /\ same_core st st' /\ lrel st' s'.
 Proof.
   intros Hk Hk2 Hfs Hrel Hok Hl Hf.
   assert (Hkk : match k with KExpr | KRef => true | _ => false end = false) by (destruct k; try contradiction; reflexivity).
-  destruct o as [r|i|u|b|b|b|m|n|str0|l]; cbn [tk_op tnorm_op top_ok l_op app] in *.
+  destruct o as [r|i|u|b|b|b|m|n|str0|l]; cbn [tk_op tnorm_op top_ok l_op app] in *; unfold regp_of in *.
   - destruct Hok as [Hlp Hr]. inversion Hl; subst s'.
     rewrite parse_op_name by (try assumption; now apply op_follow_not_col).
     rewrite Hlp, Hkk, Hfs, Hr. cbn [negb andb]. exists st. split; [reflexivity | split; [apply same_core_refl | exact Hrel]].
@@ -318,7 +321,7 @@ Qed.
 
 (* ---------------------------------------------------------------- operand lists *)
 
-Fixpoint tops_ok (fs : fstate) (decl : name -> bool) (k : stkind) (pos : nat) (ops : list operand) : Prop :=
+Fixpoint tops_ok (fs : option fstate) (decl : name -> bool) (k : stkind) (pos : nat) (ops : list operand) : Prop :=
   match ops with
   | [] => True
   | o :: r => top_ok fs decl (label_position k pos) o /\ tops_ok fs decl k (S pos) r
@@ -370,7 +373,7 @@ Proof. intros (H1 & H2 & H3). unfold declared, as_rstate. cbn. now rewrite H2, H
 
 Lemma parse_ops_list k fs rest : plain_kind k -> match k with KExpr | KRef => False | _ => True end ->
   forall ops acc st s s',
-    ss_func st = Some fs -> lrel st s ->
+    ss_func st = fs -> lrel st s ->
     tops_ok fs (declared (as_rstate st)) k (length acc) ops -> l_ops s ops = Some s' ->
     exists st', same_core st st' /\ lrel st' s'
       /\ forall fuel, (length ops < fuel)%nat ->
@@ -467,7 +470,7 @@ Proof.
 Qed.
 
 Lemma top_ok_change fs fs' d d' lp o :
-  (forall x, func_reg_p fs' x = func_reg_p fs x) -> (forall x, d' x = d x) ->
+  (forall x, regp_of fs' x = regp_of fs x) -> (forall x, d' x = d x) ->
   top_ok fs d lp o -> top_ok fs' d' lp o.
 Proof.
   intros Hf Hd. destruct o as [r|i|u|b|b|b|m|n|str0|l]; cbn [top_ok]; try tauto.
@@ -477,7 +480,7 @@ Proof.
 Qed.
 
 Lemma tops_ok_change fs fs' d d' k ops : forall pos,
-  (forall x, func_reg_p fs' x = func_reg_p fs x) -> (forall x, d' x = d x) ->
+  (forall x, regp_of fs' x = regp_of fs x) -> (forall x, d' x = d x) ->
   tops_ok fs d k pos ops -> tops_ok fs' d' k pos ops.
 Proof.
   induction ops as [|o ops IH]; intros pos Hf Hd H; [exact I|].
@@ -497,7 +500,7 @@ Proof. repeat split. Qed.
 Lemma stmt_insn st fs s labs c ops s1 s2 rest :
   ss_func st = Some fs -> lrel st s -> readable_code c = true ->
   l_defs s labs = Some s1 -> l_ops s1 ops = Some s2 ->
-  tops_ok fs (declared (as_rstate st)) (KInsn c) 0 ops ->
+  tops_ok (Some fs) (declared (as_rstate st)) (KInsn c) 0 ops ->
   (var_arity c = false -> length ops = insn_nops c) ->
   exists st', ss_mods st' = ss_mods st /\ ss_mod st' = ss_mod st
     /\ ss_func st' = Some (fs_set_insns fs (IInsn c (map tnorm_op ops) :: rev (map ILabel labs) ++ fs_insns fs))
@@ -508,11 +511,11 @@ Proof.
   intros Hfs Hrel Hrd Hdef Hops Hok Har.
   destruct (def_labels_sim labs st s s1 fs Hfs Hrel Hdef) as (st1 & E1 & M1 & M2 & F1 & Hr1).
   set (fs1 := fs_set_insns fs (rev (map ILabel labs) ++ fs_insns fs)) in *.
-  assert (Hok1 : tops_ok fs1 (declared (as_rstate st1)) (KInsn c) (length (@nil sop)) ops).
+  assert (Hok1 : tops_ok (Some fs1) (declared (as_rstate st1)) (KInsn c) (length (@nil sop)) ops).
   { eapply tops_ok_change; [ | | exact Hok].
     - intros y. reflexivity.
     - intros y. unfold declared, as_rstate. cbn. rewrite M2, F1, Hfs. destruct (ss_mod st); reflexivity. }
-  destruct (parse_ops_list (KInsn c) fs1 rest (plain_kind_insn c) I ops [] st1 s1 s2 F1 Hr1 Hok1 Hops)
+  destruct (parse_ops_list (KInsn c) (Some fs1) rest (plain_kind_insn c) I ops [] st1 s1 s2 F1 Hr1 Hok1 Hops)
     as (st2 & (C1 & C2 & C3) & Hr2 & E2).
   eexists. split; [|split; [|split; [|split]]]; cycle 4.
   - intros F HF1 HF2.
@@ -610,7 +613,7 @@ Proof. revert s; induction a as [|l a IH]; intros s; [reflexivity|]. cbn [app l_
 Definition insn_ok (fs : fstate) (d : name -> bool) (i : insn) : Prop :=
   match i with
   | ILabel _ => True
-  | IInsn c ops => readable_code c = true /\ tops_ok fs d (KInsn c) 0 ops /\ (var_arity c = false -> length ops = insn_nops c)
+  | IInsn c ops => readable_code c = true /\ tops_ok (Some fs) d (KInsn c) 0 ops /\ (var_arity c = false -> length ops = insn_nops c)
   end.
 
 Lemma label_lines_app a b : label_lines (a ++ b) = label_lines a ++ label_lines b.
@@ -661,7 +664,7 @@ Proof.
         rewrite <- !app_assoc. reflexivity.
     + cbn [l_insns] in Hins. destruct (l_ops s1 ops) as [s2|] eqn:Eo; [|discriminate].
       destruct Hi as (Hrd & Htops & Har).
-      assert (Htops' : tops_ok fs (declared (as_rstate st)) (KInsn c) 0 ops).
+      assert (Htops' : tops_ok (Some fs) (declared (as_rstate st)) (KInsn c) 0 ops).
       { eapply tops_ok_change; [ | | exact Htops]; [reflexivity | exact Hd]. }
       destruct (stmt_insn st fs s labs c ops s1 s2 (flat_map tk_insn insns ++ TName (str "endfunc") :: TNL :: rest)
                   Hfs Hrel Hrd Hdefs Eo Htops' Har) as (st1 & M1 & M2 & F1 & Hr1 & Hstep).
@@ -691,4 +694,412 @@ Proof.
         -- rewrite H2. do 5 f_equal. unfold fs1, fs_set_insns.
            cbn [map tnorm_insn rev fs_insns fs_name fs_vararg fs_res fs_args fs_locals fs_globals app].
            rewrite <- !app_assoc. reflexivity.
+Qed.
+
+(* ---------------------------------------------------------------- func / proto signatures *)
+
+Definition psig (e : sigel) : sop :=
+  match e with
+  | SigRes t => PType t
+  | SigArg v => PArg (v_type v) (v_name v) (if all_blk_type_p (v_type v) then v_size v else 0)
+  end.
+
+Definition sigel_ok (e : sigel) : Prop :=
+  match e with
+  | SigRes t => wf_mtype t /\ is_undef t = false
+  | SigArg v => wf_mtype (v_type v) /\ is_undef (v_type v) = false
+                /\ (all_blk_type_p (v_type v) = true -> 0 <= v_size v < 2 ^ 32)
+  end.
+
+Lemma type_str_not_dots t : bytes_eqb (type_str t) (str "...") = false.
+Proof.
+  destruct t as [| | | | | | | | | | | |n| |]; reflexivity.
+Qed.
+
+Definition sig_follow (rest : list ttok) : Prop :=
+  match rest with TComma :: _ => True | TNL :: _ => True | _ => False end.
+
+Lemma parse_op_sigel k nops st e rest :
+  is_sig k = true -> sigel_ok e -> sig_follow rest ->
+  parse_op k nops st (tk_sigel e ++ rest) = OpPush (psig e) st rest.
+Proof.
+  intros Hk Hok Hf.
+  assert (Hv : is_var k = false) by (destruct k; try discriminate; reflexivity).
+  assert (Hkk : match k with KGlobal => False | KLocal => False | _ => True end) by (destruct k; try discriminate; exact I).
+  destruct e as [t|v]; cbn [tk_sigel sigel_ok psig] in *.
+  - destruct Hok as [Hw Hu]. cbn [app]. unfold parse_op. rewrite Hk, Hv, type_str_not_dots. cbn [andb negb orb].
+    rewrite str2type_type_str by assumption.
+    destruct rest as [|[ | | | | | | | | | | | | ] r]; cbn in Hf; try contradiction; reflexivity.
+  - destruct Hok as (Hw & Hu & Hsz). unfold tk_arg. destruct (all_blk_type_p (v_type v)) eqn:Eb.
+    + cbn [app]. unfold parse_op. rewrite Hk, Hv, type_str_not_dots. cbn [andb negb orb].
+      rewrite str2type_type_str by assumption. rewrite Eb. cbn [negb orb].
+      destruct (Hsz eq_refl) as [H0 H1].
+      destruct (Z.ltb_spec (v_size v) 0); [lia|]. destruct (Z.leb_spec (2 ^ 32) (v_size v)); [lia|]. reflexivity.
+    + cbn [app]. unfold parse_op. rewrite Hk, Hv, type_str_not_dots. cbn [andb negb orb].
+      rewrite str2type_type_str by assumption.
+      destruct k; try discriminate; reflexivity.
+Qed.
+
+Lemma tk_sigel_head e : exists t r, tk_sigel e = t :: r /\ t <> TNL /\ t <> TSemi.
+Proof.
+  destruct e as [t|v]; cbn [tk_sigel]; [|unfold tk_arg; destruct (all_blk_type_p (v_type v))];
+    eexists _, _; (split; [reflexivity | split; discriminate]).
+Qed.
+
+Definition dots_tok : ttok := TName (str "...").
+
+(* the elements of a signature followed by the end of the line or by ", ..." *)
+Lemma parse_ops_sig k st rest : is_sig k = true ->
+  forall els acc dots fuel, els <> [] -> Forall sigel_ok els -> (length els + 2 < fuel)%nat ->
+    parse_ops fuel k st acc (sep_toks tk_sigel els ++ (if dots : bool then [TComma; dots_tok; TNL] else [TNL]) ++ rest)
+    = Some (rev acc ++ map psig els, dots, st, rest).
+Proof.
+  intros Hk. induction els as [|e els IH]; intros acc dots fuel Hne Hok Hfuel; [congruence|].
+  pose proof (Forall_inv Hok) as He. pose proof (Forall_inv_tail Hok) as Hoks.
+  destruct fuel; [cbn in Hfuel; lia|].
+  destruct (tk_sigel_head e) as (t & r & Et & Hn1 & Hn2).
+  destruct els as [|e2 els'].
+  - rewrite sep_toks_one.
+    destruct dots.
+    + pose proof (parse_op_sigel k (length acc) st e ([TComma; dots_tok; TNL] ++ rest) Hk He I) as Ep.
+      rewrite Et in *. cbn [app] in *. rewrite parse_ops_unfold by assumption. cbv zeta. rewrite Ep.
+      destruct fuel; [cbn in Hfuel; lia|].
+      assert (Ed : parse_ops (S fuel) k st (psig e :: acc) (dots_tok :: TNL :: rest) = Some (rev (psig e :: acc), true, st, rest)).
+      { rewrite parse_ops_unfold by discriminate. cbv zeta. unfold dots_tok, parse_op. rewrite Hk. reflexivity. }
+      rewrite Ed. cbn [rev map]. reflexivity.
+    + pose proof (parse_op_sigel k (length acc) st e ([TNL] ++ rest) Hk He I) as Ep.
+      rewrite Et in *. cbn [app] in *. rewrite parse_ops_unfold by assumption. cbv zeta. rewrite Ep.
+      cbn [rev map]. reflexivity.
+  - rewrite sep_toks_cons2. rewrite <- !app_assoc. cbn [app].
+    pose proof (parse_op_sigel k (length acc) st e
+                  (TComma :: sep_toks tk_sigel (e2 :: els') ++ (if dots then [TComma; dots_tok; TNL] else [TNL]) ++ rest) Hk He I) as Ep.
+    rewrite Et in *. cbn [app] in *. rewrite parse_ops_unfold by assumption. cbv zeta. rewrite Ep.
+    rewrite IH by (try assumption; try discriminate; cbn [length] in Hfuel |- *; lia).
+    cbn [rev map]. now rewrite <- app_assoc.
+Qed.
+
+Lemma parse_ops_sig_nil k st rest acc dots fuel : is_sig k = true -> (2 < fuel)%nat ->
+  parse_ops fuel k st acc ((if dots : bool then [dots_tok; TNL] else [TNL]) ++ rest) = Some (rev acc, dots, st, rest).
+Proof.
+  intros Hk Hf. destruct fuel; [lia|]. destruct dots; cbn [app].
+  - rewrite parse_ops_unfold by discriminate. cbv zeta. unfold dots_tok, parse_op. rewrite Hk. reflexivity.
+  - reflexivity.
+Qed.
+
+Lemma split_sig_sig res args :
+  split_sig (map psig (map SigRes res ++ map SigArg args)) = Some (res, map norm_var args).
+Proof.
+  induction res as [|t res IH]; cbn [map app psig split_sig].
+  - assert (E : fold_right (fun (s : sop) (acc : option (list var)) =>
+                   match s, acc with PArg t n sz, Some vs => Some (mkVar t n sz :: vs) | _, _ => None end)
+                  (Some []) (map psig (map SigArg args)) = Some (map norm_var args)).
+    { induction args as [|v args IHa]; [reflexivity|]. cbn [map psig fold_right]. rewrite IHa. destruct v; reflexivity. }
+    destruct args as [|v args']; [reflexivity|].
+    cbn [map psig split_sig] in *. rewrite E. reflexivity.
+  - rewrite IH. reflexivity.
+Qed.
+
+(* ---------------------------------------------------------------- item statements *)
+
+Definition optlist (n : option name) : list name := match n with Some x => [x] | None => [] end.
+
+Lemma parse_labels_optname n kw ts2 F :
+  follow_not_col ts2 -> (2 <= F)%nat ->
+  parse_labels F (tk_optname n ++ TName kw :: ts2) [] = Some (optlist n, kw, ts2).
+Proof.
+  intros Hf HF. destruct F as [|[|F]]; try lia.
+  destruct n as [x|]; cbn [tk_optname app parse_labels optlist rev];
+    destruct ts2 as [|[ | | | | | | | | | | | | ] r]; cbn in Hf; try contradiction; reflexivity.
+Qed.
+
+Lemma tk_optname_head n kw r : exists x r', tk_optname n ++ TName kw :: r = TName x :: r'.
+Proof. destruct n; cbn; eexists _, _; reflexivity. Qed.
+
+Lemma sep_toks_follow ops rest : follow_not_col (sep_toks tk_op ops ++ TNL :: rest).
+Proof.
+  destruct ops as [|o ops']; [exact I|].
+  destruct (tk_op_head o) as (t0 & r0 & Et & _).
+  destruct ops'; [rewrite sep_toks_one | rewrite sep_toks_cons2]; rewrite Et;
+    destruct o; cbn [tk_op] in Et; try (inversion Et; subst; exact I); unfold tk_mem in Et; inversion Et; subst; exact I.
+Qed.
+
+(* a statement outside functions: optional name, keyword, plain operands *)
+Lemma stmt_plain k kw n ops st s s' rest :
+  stmt_kind (str kw) = Some k -> plain_kind k -> match k with KExpr | KRef | KInsn _ => False | _ => True end ->
+  label_count_bad k (length (optlist n)) = false ->
+  ss_func st = None -> lrel st s -> tops_ok None (declared (as_rstate st)) k 0 ops -> l_ops s ops = Some s' ->
+  exists st1, same_core st st1 /\ lrel st1 s'
+    /\ forall F, (length ops + 2 <= F)%nat ->
+         scan_stmt F st (tk_optname n ++ TName (str kw) :: sep_toks tk_op ops ++ TNL :: rest)
+         = stmt_exec k (optlist n) st1 (pops ops) false rest.
+Proof.
+  intros Hkind Hk Hk2 Hcnt Hfs Hrel Hok Hl.
+  assert (Hk2' : match k with KExpr | KRef => False | _ => True end) by (destruct k; tauto).
+  destruct (parse_ops_list k None rest Hk Hk2' ops [] st s s' Hfs Hrel Hok Hl) as (st1 & Hc & Hr & E).
+  exists st1. split; [assumption|]. split; [assumption|].
+  intros F HF.
+  destruct (tk_optname_head n (str kw) (sep_toks tk_op ops ++ TNL :: rest)) as (x & r' & Eh).
+  rewrite Eh, scan_stmt_name, <- Eh. clear Eh x r'.
+  unfold scan_body. rewrite parse_labels_optname by (try apply sep_toks_follow; lia).
+  rewrite Hkind, Hcnt.
+  assert (Hv : is_var k = false) by (destruct Hk as (_ & Hv & _); exact Hv).
+  rewrite Hv. cbn [andb].
+  assert (Hdl : (match k with KInsn _ | KEndfunc => def_labels st (optlist n) | _ => Some st end) = Some st).
+  { destruct k; try reflexivity; try contradiction. destruct Hk as (_ & _ & Hf). contradiction. }
+  rewrite Hdl.
+  assert (Hef : (match k, ss_func st with KEndfunc, None => negb (Nat.eqb (length (optlist n)) 0) | _, _ => false end) = false).
+  { destruct k; try reflexivity. destruct Hk as (_ & _ & Hf). contradiction. }
+  rewrite Hef. rewrite E by lia. reflexivity.
+Qed.
+
+Definition in_mod (st : sstate) (mn : name) (items : list item) : Prop :=
+  ss_mod st = Some (mn, items) /\ ss_func st = None.
+
+Definition add_to (st : sstate) (mn : name) (items : list item) (it : item) : sstate :=
+  mkSstate (ss_mods st) (Some (mn, it :: items)) None (ss_labels st) (ss_next st).
+
+Lemma add_named_in st mn items n it :
+  in_mod st mn items -> add_named st (optlist n) (fun x => Some (it x)) = Some (add_to st mn items (it n)).
+Proof.
+  intros [Hm Hf]. unfold add_named, add_item, as_rstate, set_core, add_to. cbn [rs_mod rs_func rs_mods].
+  destruct n; cbn [optlist opt_label]; rewrite Hm, Hf; reflexivity.
+Qed.
+
+Lemma lrel_add_to st s mn items it : lrel st s -> lrel (add_to st mn items it) s.
+Proof. intros [[H1 H2 H3 H4] Hn]. split; [constructor; assumption | assumption]. Qed.
+
+Lemma in_mod_core st st1 mn items : same_core st st1 -> in_mod st mn items -> in_mod st1 mn items.
+Proof. intros (_ & H2 & H3) [Hm Hf]. split; congruence. Qed.
+
+(* the result of a statement step: the item is added, labels evolve *)
+Definition item_done (st st' : sstate) (mn : name) (items : list item) (it : item) (s' : lstate) : Prop :=
+  ss_mods st' = ss_mods st /\ in_mod st' mn (it :: items) /\ lrel st' s'.
+
+Lemma kw_item_step (mk : name -> item) kw k st mn items x s rest :
+  stmt_kind (str kw) = Some k ->
+  match k with KExport | KImport | KForward => True | _ => False end ->
+  (forall st0 r, parse_op k 0 st0 (TName x :: TNL :: r)
+                 = match add_item (as_rstate st0) (mk x) with
+                   | Some rs => OpItem (mkSstate (rs_mods rs) (rs_mod rs) (rs_func rs) (ss_labels st0) (ss_next st0)) (TNL :: r)
+                   | None => OpErr end) ->
+  in_mod st mn items -> lrel st s ->
+  exists st', item_done st st' mn items (mk x) s
+    /\ forall F, (3 <= F)%nat -> scan_stmt F st (TName (str kw) :: TName x :: TNL :: rest) = SNext st' rest.
+Proof.
+  intros Hkind Hk Hop [Hm Hf] Hrel.
+  exists (add_to st mn items (mk x)). split.
+  - split; [reflexivity|]. split; [split; reflexivity|]. now apply lrel_add_to.
+  - intros F HF. rewrite scan_stmt_name. unfold scan_body.
+    destruct F as [|[|[|F]]]; try lia.
+    cbn [parse_labels rev]. rewrite Hkind.
+    assert (Hcnt : label_count_bad k 0 = false) by (destruct k; try contradiction; reflexivity).
+    cbn [length]. rewrite Hcnt.
+    assert (Hv : is_var k = false) by (destruct k; try contradiction; reflexivity).
+    rewrite Hv. cbn [andb].
+    assert (Hdl : (match k with KInsn _ | KEndfunc => def_labels st [] | _ => Some st end) = Some st)
+      by (destruct k; try contradiction; reflexivity).
+    rewrite Hdl.
+    assert (Hef : (match k, ss_func st with KEndfunc, None => negb (Nat.eqb 0 0) | _, _ => false end) = false)
+      by (destruct k; try contradiction; reflexivity).
+    rewrite Hef.
+    rewrite parse_ops_unfold by discriminate. cbv zeta. cbn [length]. rewrite Hop.
+    unfold add_item, as_rstate. cbn [rs_mod rs_func rs_mods]. rewrite Hm, Hf.
+    cbn [parse_ops rev]. unfold stmt_exec. destruct k; try contradiction; reflexivity.
+Qed.
+
+Lemma item_import st mn items x s rest : in_mod st mn items -> lrel st s ->
+  exists st', item_done st st' mn items (ItImport x) s
+    /\ forall F, (3 <= F)%nat -> scan_stmt F st (tk_item (ItImport x) ++ rest) = SNext st' rest.
+Proof. intros. apply (kw_item_step ItImport "import" KImport); try assumption; try reflexivity; exact I. Qed.
+Lemma item_export st mn items x s rest : in_mod st mn items -> lrel st s ->
+  exists st', item_done st st' mn items (ItExport x) s
+    /\ forall F, (3 <= F)%nat -> scan_stmt F st (tk_item (ItExport x) ++ rest) = SNext st' rest.
+Proof. intros. apply (kw_item_step ItExport "export" KExport); try assumption; try reflexivity; exact I. Qed.
+Lemma item_forward st mn items x s rest : in_mod st mn items -> lrel st s ->
+  exists st', item_done st st' mn items (ItForward x) s
+    /\ forall F, (3 <= F)%nat -> scan_stmt F st (tk_item (ItForward x) ++ rest) = SNext st' rest.
+Proof. intros. apply (kw_item_step ItForward "forward" KForward); try assumption; try reflexivity; exact I. Qed.
+
+Lemma s64_small z : 0 <= z < 2 ^ 63 -> s64 z = z.
+Proof. intros H. apply swrap_id; [lia|]. unfold in_s. cbn. lia. Qed.
+
+Lemma item_bss st mn items n len s rest : in_mod st mn items -> lrel st s -> 0 <= len < 2 ^ 63 ->
+  exists st', item_done st st' mn items (ItBss n len) s
+    /\ forall F, (3 <= F)%nat -> scan_stmt F st (tk_item (ItBss n len) ++ rest) = SNext st' rest.
+Proof.
+  intros Hin Hrel Hlen. destruct Hin as [Hm Hf].
+  destruct (stmt_plain KBss "bss" n [OInt (s64 len)] st s s rest) as (st1 & Hc & Hr & E); try assumption; try reflexivity; try exact I.
+  { repeat split. }
+  { destruct n; reflexivity. }
+  { split; exact I. }
+  pose proof (in_mod_core st st1 mn items Hc (conj Hm Hf)) as Hin1.
+  exists (add_to st1 mn items (ItBss n len)). split.
+  - destruct Hc as (C1 & C2 & C3). split; [cbn; congruence|]. split; [split; reflexivity | now apply lrel_add_to].
+  - intros F HF. cbn [tk_item]. rewrite <- app_assoc. cbn [app].
+    pose proof (E F ltac:(cbn; lia)) as E'. rewrite sep_toks_one in E'. cbn [tk_op app] in E'. rewrite E'.
+    unfold stmt_exec, pops. cbn [map tnorm_op]. rewrite s64_small by assumption.
+    destruct (Z.ltb_spec len 0); [lia|]. rewrite (add_named_in st1 mn items n (fun x => ItBss x len) Hin1). reflexivity.
+Qed.
+
+Lemma parse_ops_ref k st r d rest F :
+  (k = KRef \/ k = KExpr) -> declared (as_rstate st) r = true -> (3 <= F)%nat ->
+  parse_ops F k st [] (TName r :: TComma :: TInt d :: TNL :: rest) = Some ([POp (ORef r); POp (OInt d)], false, st, rest).
+Proof.
+  intros Hk Hd HF. destruct F as [|[|[|F]]]; try lia.
+  rewrite parse_ops_unfold by discriminate. cbv zeta.
+  rewrite parse_op_name; [ | destruct Hk; subst k; repeat split | exact I].
+  assert (Hlp : label_position k (length (@nil sop)) = false) by (destruct Hk; subst k; reflexivity).
+  rewrite Hlp. assert (Hkk : match k with KExpr | KRef => true | _ => false end = true) by (destruct Hk; subst k; reflexivity).
+  rewrite Hkk, Hd. cbn [negb andb]. reflexivity.
+Qed.
+
+Lemma item_ref st mn items n r d s rest : in_mod st mn items -> lrel st s -> declared (as_rstate st) r = true ->
+  exists st', item_done st st' mn items (ItRef n r d) s
+    /\ forall F, (4 <= F)%nat -> scan_stmt F st (tk_item (ItRef n r d) ++ rest) = SNext st' rest.
+Proof.
+  intros Hin Hrel Hd. exists (add_to st mn items (ItRef n r d)). split.
+  - split; [reflexivity|]. split; [split; reflexivity | now apply lrel_add_to].
+  - intros F HF. cbn [tk_item]. rewrite <- app_assoc. cbn [app].
+    destruct (tk_optname_head n (str "ref") (TName r :: TComma :: TInt d :: TNL :: rest)) as (x & r' & Eh).
+    rewrite Eh, scan_stmt_name, <- Eh. clear Eh x r'.
+    unfold scan_body. rewrite parse_labels_optname by (try exact I; lia).
+    assert (Hkd : stmt_kind (str "ref") = Some KRef) by reflexivity. rewrite Hkd.
+    assert (Hcnt : label_count_bad KRef (length (optlist n)) = false) by (destruct n; reflexivity).
+    rewrite Hcnt. cbn [is_var andb]. destruct Hin as [Hm Hf].
+    rewrite parse_ops_ref by (try tauto; try assumption; lia).
+    unfold stmt_exec. rewrite (add_named_in st mn items n (fun x => ItRef x r d) (conj Hm Hf)). reflexivity.
+Qed.
+
+Lemma item_expr st mn items n f s rest : in_mod st mn items -> lrel st s ->
+  declared (as_rstate st) f = true -> declared_func (as_rstate st) f = true ->
+  exists st', item_done st st' mn items (ItExpr n f) s
+    /\ forall F, (4 <= F)%nat -> scan_stmt F st (tk_item (ItExpr n f) ++ rest) = SNext st' rest.
+Proof.
+  intros Hin Hrel Hd Hdf. exists (add_to st mn items (ItExpr n f)). split.
+  - split; [reflexivity|]. split; [split; reflexivity | now apply lrel_add_to].
+  - intros F HF. cbn [tk_item]. rewrite <- app_assoc. cbn [app].
+    destruct (tk_optname_head n (str "expr") (TName f :: TNL :: rest)) as (x & r' & Eh).
+    rewrite Eh, scan_stmt_name, <- Eh. clear Eh x r'.
+    unfold scan_body. rewrite parse_labels_optname by (try exact I; lia).
+    assert (Hkd : stmt_kind (str "expr") = Some KExpr) by reflexivity. rewrite Hkd.
+    assert (Hcnt : label_count_bad KExpr (length (optlist n)) = false) by (destruct n; reflexivity).
+    rewrite Hcnt. cbn [is_var andb]. destruct Hin as [Hm Hf].
+    destruct F as [|[|F]]; try lia.
+    rewrite parse_ops_unfold by discriminate. cbv zeta.
+    rewrite parse_op_name; [ | repeat split | exact I]. cbn [label_position negb andb length]. rewrite Hd. cbn [parse_ops rev app].
+    unfold stmt_exec. cbv beta iota zeta. rewrite Hdf. rewrite (add_named_in st mn items n (fun x => ItExpr x f) (conj Hm Hf)). reflexivity.
+Qed.
+
+Definition lref_ops (l : Z) (l2 : option Z) (d : Z) : list operand :=
+  OLabel l :: (match l2 with Some x => [OLabel x] | None => [] end) ++ (if d =? 0 then [] else [OInt d]).
+
+Definition l_item_lref (s : lstate) (l : Z) (l2 : option Z) : option lstate :=
+  match l_ref s l with
+  | Some s1 => match l2 with Some x => l_ref s1 x | None => Some s1 end
+  | None => None
+  end.
+
+Lemma item_lref st mn items n l l2 d s s' rest : in_mod st mn items -> lrel st s ->
+  l_item_lref s l l2 = Some s' ->
+  exists st', item_done st st' mn items (ItLref n l l2 d) s'
+    /\ forall F, (5 <= F)%nat -> scan_stmt F st (tk_item (ItLref n l l2 d) ++ rest) = SNext st' rest.
+Proof.
+  intros Hin Hrel Hl. destruct Hin as [Hm Hf].
+  assert (Etk : tk_item (ItLref n l l2 d) ++ rest
+                = tk_optname n ++ TName (str "lref") :: sep_toks tk_op (lref_ops l l2 d) ++ TNL :: rest).
+  { cbn [tk_item]. unfold lref_ops. rewrite <- !app_assoc. cbn [app]. f_equal. f_equal.
+    destruct l2 as [x|], (d =? 0); reflexivity. }
+  assert (Hlops : l_ops s (lref_ops l l2 d) = Some s').
+  { unfold lref_ops, l_item_lref in *. cbn [l_ops l_op]. destruct (l_ref s l) as [s1|]; [|discriminate].
+    destruct l2 as [x|]; cbn [app l_ops l_op].
+    - destruct (l_ref s1 x) as [s2|]; [|discriminate]. inversion Hl; subst. destruct (d =? 0); reflexivity.
+    - inversion Hl; subst. destruct (d =? 0); reflexivity. }
+  assert (Hok : tops_ok None (declared (as_rstate st)) KLref 0 (lref_ops l l2 d)).
+  { unfold lref_ops. destruct l2 as [x|], (d =? 0); cbn; tauto. }
+  destruct (stmt_plain KLref "lref" n (lref_ops l l2 d) st s s' rest) as (st1 & Hc & Hr & E); try assumption; try reflexivity; try exact I.
+  { repeat split. }
+  { destruct n; reflexivity. }
+  pose proof (in_mod_core st st1 mn items Hc (conj Hm Hf)) as Hin1.
+  exists (add_to st1 mn items (ItLref n l l2 d)). split.
+  - destruct Hc as (C1 & C2 & C3). split; [cbn; congruence|]. split; [split; reflexivity | now apply lrel_add_to].
+  - intros F HF. rewrite Etk. rewrite E.
+    2:{ unfold lref_ops. destruct l2, (d =? 0); cbn [length app]; lia. }
+    unfold stmt_exec, pops, lref_ops.
+    destruct l2 as [x|]; destruct (Z.eqb_spec d 0) as [->|Hd]; cbn [map tnorm_op app];
+      rewrite ?(add_named_in st1 mn items n (fun y => ItLref y l (Some x) 0) Hin1),
+              ?(add_named_in st1 mn items n (fun y => ItLref y l (Some x) d) Hin1),
+              ?(add_named_in st1 mn items n (fun y => ItLref y l None 0) Hin1),
+              ?(add_named_in st1 mn items n (fun y => ItLref y l None d) Hin1); reflexivity.
+Qed.
+
+(* data elements as operands *)
+Definition el_op (t : mtype) (z : Z) : operand :=
+  match t with
+  | TI8 | TI16 | TI32 | TI64 => OInt z
+  | TU8 | TU16 | TU32 | TU64 | TP => OInt (s64 z)
+  | TF => OFloat z | TD => ODouble z | TLD => OLdouble z
+  | TBLK _ | TRBLK | TUNDEF => OInt 0
+  end.
+
+Definition data_type (t : mtype) : bool := match t with TBLK _ | TRBLK | TUNDEF => false | _ => true end.
+
+Lemma sep_toks_el t els : data_type t = true -> sep_toks (tk_el t) els = sep_toks tk_op (map (el_op t) els).
+Proof.
+  intros Ht. induction els as [|z els IH]; [reflexivity|]. destruct els as [|z2 els'].
+  - destruct t; try discriminate; reflexivity.
+  - cbn [map]. rewrite !sep_toks_cons2. cbn [map] in IH. rewrite IH. destruct t; try discriminate; reflexivity.
+Qed.
+
+Lemma tops_ok_imm ofs d k t els : forall pos, tops_ok ofs d k pos (map (el_op t) els).
+Proof. induction els as [|z els IH]; intros pos; [exact I|]. split; [destruct t; exact I | apply IH]. Qed.
+
+Lemma l_ops_imm s t els : l_ops s (map (el_op t) els) = Some s.
+Proof. induction els as [|z els IH]; [reflexivity|]. cbn [map l_ops]. destruct t; cbn [el_op l_op]; exact IH. Qed.
+
+Lemma map_tnorm_imm t els : map tnorm_op (map (el_op t) els) = map (el_op t) els.
+Proof. rewrite map_map. apply map_ext. intros z. destruct t; reflexivity. Qed.
+
+Lemma data_el_op t z : el_ok t z -> data_el t (el_op t z) = Some z.
+Proof.
+  destruct t; cbn [el_ok el_op data_el]; intros H; try contradiction; try reflexivity;
+    try (rewrite swrap_id by (try assumption; lia); reflexivity).
+  - (* u8 *) unfold in_u in H. cbn in H. rewrite s64_small by lia. rewrite uwrap_id by (unfold in_u; cbn; lia). reflexivity.
+  - unfold in_u in H. cbn in H. rewrite s64_small by lia. rewrite uwrap_id by (unfold in_u; cbn; lia). reflexivity.
+  - unfold in_u in H. cbn in H. rewrite s64_small by lia. rewrite uwrap_id by (unfold in_u; cbn; lia). reflexivity.
+  - unfold s64. rewrite uwrap_swrap by lia. rewrite uwrap_id by assumption. reflexivity.
+  - unfold s64. rewrite uwrap_swrap by lia. rewrite uwrap_id by assumption. reflexivity.
+Qed.
+
+Lemma map_opt_data t els : Forall (el_ok t) els -> map_opt (data_el t) (map (el_op t) els) = Some els.
+Proof.
+  induction els as [|z els IH]; intros H; [reflexivity|].
+  cbn [map map_opt]. rewrite data_el_op by exact (Forall_inv H). rewrite IH by exact (Forall_inv_tail H). reflexivity.
+Qed.
+
+Lemma stmt_kind_type t : data_type t = true -> wf_mtype t -> stmt_kind (type_str t) = Some (KData t).
+Proof. destruct t; try discriminate; reflexivity. Qed.
+
+Lemma item_data st mn items n t els s rest : in_mod st mn items -> lrel st s ->
+  data_type t = true -> Forall (el_ok t) els ->
+  exists st', item_done st st' mn items (ItData n t els) s
+    /\ forall F, (length els + 2 <= F)%nat -> scan_stmt F st (tk_item (ItData n t els) ++ rest) = SNext st' rest.
+Proof.
+  intros Hin Hrel Ht Hels. destruct Hin as [Hm Hf].
+  assert (Hw : wf_mtype t) by (destruct t; try discriminate; exact I).
+  destruct (parse_ops_list (KData t) None rest ltac:(repeat split) I (map (el_op t) els) [] st s s Hf Hrel
+              (tops_ok_imm None _ (KData t) t els _) (l_ops_imm s t els)) as (st1 & Hc & Hr & E).
+  pose proof (in_mod_core st st1 mn items Hc (conj Hm Hf)) as Hin1.
+  exists (add_to st1 mn items (ItData n t els)). split.
+  - destruct Hc as (C1 & C2 & C3). split; [cbn; congruence|]. split; [split; reflexivity | now apply lrel_add_to].
+  - intros F HF. cbn [tk_item]. rewrite <- !app_assoc. cbn [app].
+    rewrite sep_toks_el by assumption.
+    destruct (tk_optname_head n (type_str t) (sep_toks tk_op (map (el_op t) els) ++ TNL :: rest)) as (x & r' & Eh).
+    rewrite Eh, scan_stmt_name, <- Eh. clear Eh x r'.
+    unfold scan_body. rewrite parse_labels_optname by (try apply sep_toks_follow; lia).
+    rewrite stmt_kind_type by assumption.
+    assert (Hcnt : label_count_bad (KData t) (length (optlist n)) = false) by (destruct n; reflexivity).
+    rewrite Hcnt. cbn [is_var andb].
+    rewrite E by (rewrite map_length; lia). cbn [rev app].
+    unfold stmt_exec. rewrite all_ops_pops, map_tnorm_imm, map_opt_data by assumption.
+    rewrite (add_named_in st1 mn items n (fun x => ItData x t els) Hin1). reflexivity.
 Qed.
